@@ -21,8 +21,8 @@ CHECKS = {
    note="Trusted: as C20; linked-list cells are modelled as an algebraic datatype and slices as mathematical sequences (side conditions checked syntactically on every run); integer overflow of the length field is not checked (would need 2^63 elements).",
    tech="contract-based deductive verification: ADT/sequence memory abstractions with checked side conditions, interface refinement, inductive lemma library", ref="6/C19"),
  "C18": dict(
-   text="Proof: the skip list has ghost state live (its set of nodes), dom/view (the abstract map) and nodeof; the representation invariant skinv is first order over the keys themselves: every node has rank in [1,levels], every finger points to a live node of sufficient rank with a strictly larger key, no node of rank > l lies strictly between a node and its level-l finger (so each level is a sorted sub-chain of the level below and level 0 enumerates exactly the live nodes), keys are unique and the abstract map is the key/value content of the live nodes. New is verified to establish skinv with the empty map for any total order; search and skip against 'the least node not smaller than the key' and the per-level predecessor path (loop invariants on both nested loops); mkNode is verified to return a fresh node of some rank in [1,levels] whatever the random source yields; Get, Put and Remove are verified to preserve skinv and to answer and update (dom, view) exactly as a map does (Put overwrites, Get/Remove return the zero value for absent keys), for every rank mkNode may return: the loop invariants of Put and Remove describe the fingers of every node after k levels were relinked. The history-level statement is the induction over these per-operation contracts. The printed form follows from the invariant (fingers only to larger keys; level 0 chain = live keys ascending); String() itself (fmt/bytes formatting) is not under contract.",
-   note="Trusted: as C20; probability (math.Log10/Pow: levels >= 1, len(p) = levels+1) is a trusted contract; mkNode is verified for every value of the random source with floating point operations uninterpreted (which is how the rank-0 defect, fixed in 1db9f67, was found); fingers/path slices are modelled as arrays owned by their node (each comes from its own make and is never re-sliced or shared: syntactic side condition), the reusable path buffer as a value rewritten by skip at every level before use; the comparison trait is a pure total function (no state); reachability (cover) queries over the quantified invariant are undecided by the solvers - the contracts are shown non-vacuous by the must-fail corpus instead; String()/node.String() not verified.",
+   text="Proof: the skip list has ghost state live (its set of nodes), dom/view (the abstract map) and nodeof; the representation invariant skinv is first order over the keys themselves: every node has rank in [1,levels], every finger points to a live node of sufficient rank with a strictly larger key, no node of rank > l lies strictly between a node and its level-l finger (so each level is a sorted sub-chain of the level below and level 0 enumerates exactly the live nodes), keys are unique and the abstract map is the key/value content of the live nodes. New is verified to establish skinv with the empty map for any total order; search and skip against 'the least node not smaller than the key' and the per-level predecessor path (loop invariants on both nested loops); mkNode is verified to return a fresh node of some rank in [1,levels] whatever the random source yields; Get, Put and Remove are verified to preserve skinv and to answer and update (dom, view) exactly as a map does (Put overwrites, Get/Remove return the zero value for absent keys), for every rank mkNode may return: the loop invariants of Put and Remove describe the fingers of every node after k levels were relinked. The history-level statement is the induction over these per-operation contracts. The printed form follows from the invariant (fingers only to larger keys; level 0 chain = live keys ascending); String()'s walk is under contract (every visited node is the head or a live node, index 0 in range, the walk advances), its formatting (fmt, bytes.Buffer, the node printer) is not.",
+   note="Trusted: as C20; probability (math.Log10/Pow: levels >= 1, len(p) = levels+1) is a trusted contract; mkNode is verified for every value of the random source with floating point operations uninterpreted (which is how the rank-0 defect, fixed in 1db9f67, was found); fingers/path slices are modelled as arrays owned by their node (each comes from its own make and is never re-sliced or shared: syntactic side condition), the reusable path buffer as a value rewritten by skip at every level before use; the comparison trait is a pure total function (no state); reachability (cover) queries over the quantified invariant are undecided by the solvers - the contracts are shown non-vacuous by the must-fail corpus instead; the node printer (*tSkipNode).String is a trusted pure contract; formatting is not modelled.",
    tech="contract-based deductive verification: ghost fields, first-order representation invariant over a heap of nodes with array-valued finger fields, two-state loop invariants", ref="6/C18"),
  "C14": dict(
    text="Proof: seq.Seq[T] carries abstract state view (list from the current element on) and done; every iterator type (element, seqOf, takeWhile, filter, fmap, plus, join) is verified against the Value/Next contract through a model clause and an object invariant (behavioural subtyping, promoted methods included); every constructor is verified to return an iterator whose list is the list function (takew, dropw, filter, map, ++, flatmap) of its arguments' lists, nil iff empty; ForEach against a ghost call trace (visits in order, stops with the first error). Loops carry invariants and decreases clauses. Since each combinator is proved against the interface contract only, trees of any depth are covered. Source slices: only re-slicing is within the sequence model, any store fails a model: obligation.",
